@@ -12,6 +12,12 @@ Four implementation runs per case (REAL Simulator / ChargingNetwork / EVSE / EV 
      -> `run()`         (plain ChargingNetwork, schedule history off)
   d  the same with `store_schedule_history=True` (and a ChargingNetwork subclass without extra
      attributes whose `post_charging_update` logs the occupancy of every period)
+For a scenario whose scheduler is a REAL algorithm of the package (every sort order of the greedy algorithm, round
+robin, uncontrolled; with / without the SimpleRampdown estimator, whose per-session bounds are hidden state of the
+algorithm object) there are three more:
+  b2 the failure strikes AFTER the algorithm computed its schedule; `run()` again
+  c2 as c, but `update_scheduler(the ORIGINAL algorithm object)` (with an estimator, d re-attaches the original too)
+  c3 TWO interruptions (period k and a later invoked period), JSON round trip + the original object each time
 `numpy.random.normal` is replaced by a fixed stream for the whole case, so the draws continue across
 the crash and the round trip exactly as the process-global RNG would.
 
@@ -29,6 +35,9 @@ unfolding from the root + number of objects per class, i.e. the same sharing); t
 `decode (encode s)` reproduces the model's crash-point state ("codec_inverse"), and the implementation's own
 `context_dict` (ids renumbered into the model's layout, scalars tagged: `_canon_impl`) is decoded into a model
 state from which the MODEL run is continued and compared with the implementation's resumed run c.
+For the real algorithms the model is C07's composition (drv_C09 "sorted": `WireSortedRd` — the modelled sorted algorithm
+inside the simulator model, the SimpleRampdown object threaded through `SimSortedRd.runSt`), run UNINTERRUPTED and
+compared with a, b, c2, c3 (and c, d when the algorithm object the run was resumed with carries the same state).
 """
 from __future__ import annotations
 
@@ -68,8 +77,17 @@ ASSUMPTIONS = ["the scheduler is a function of the Interface view (no hidden sta
                "an algorithm WITH hidden state (SortedSchedulingAlgo / RoundRobin with the SimpleRampdown estimator: "
                "per-session upper bounds live in the estimator object) is covered when that object survives: crash + "
                "run() again, and JSON round trip + update_scheduler(the ORIGINAL algorithm object) must equal the "
-               "uninterrupted run; a FRESH estimator after the load has lost its bounds — the property's 'given its "
-               "scheduler again' does not promise equality there (measured: features estimator_fresh_algo_after_json)",
+               "uninterrupted run — pilots, rates, energies, event history, schedule history — also after a second "
+               "interruption; a FRESH estimator after the load has lost its bounds — the property's 'given its "
+               "scheduler again' does not promise equality there (measured: features estimator_fresh_algo_after_json); "
+               "a failure AFTER the algorithm updated its estimator, then run() again, lets the estimator take the same "
+               "step twice: not promised either (measured: estimator_retry_after_it_ran); the estimator's dict itself is "
+               "not an observable of the property (only what the simulation does is compared)",
+               "real algorithms: the model side is C07's composition model (sorted algorithm + SimpleRampdown inside the "
+               "simulator model), run uninterrupted; it is skipped (oracle only) for the minimum-rate option on a station "
+               "whose smallest non-zero pilot is fractional (e.g. 12.5 A): SessionInfo.min_rates is an integer array "
+               "(interface.py:95), so preprocessing.py:140 stores 12 and the session gets no allowable rate — a quirk of "
+               "the sorted algorithms' preprocessing (C07/C08 territory) that is the same in every run of a case",
                "sessions are well formed (0 <= arrival < departure, distinct ids): with departure <= arrival the "
                "unplug event is already due when the run is resumed and is processed one period earlier",
                "StochasticNetwork (contrib) defines no _to_dict: its waiting queue is documented as not restorable "
@@ -79,9 +97,21 @@ RULE = ("scenario = 1-4 stations of mixed EVSE classes (continuous / deadband / 
         "events (also after the last departure), period in {0.5,1,5,15}, max_recompute in {None,1,2}, scripted "
         "multi-period schedules / empty scheduler; every 5th scenario runs on the contrib StochasticNetwork (seeded "
         "random space assignment, waiting queue, early departure; crash+resume only, implementation oracle only); "
-        "every 5th scenario uses a REAL algorithm (uncontrolled, sorted fcfs/edf, round robin; with/without the "
-        "SimpleRampdown estimator and the minimum-rate option; two-stage batteries) with two extra runs: failure AFTER "
-        "the algorithm ran, and JSON round trip with the original algorithm object re-attached; thorough adds EVERY "
+        "every 5th scenario uses a REAL algorithm (uncontrolled, greedy fcfs/lcfs/edf/llf/lrpt, round robin over any "
+        "sort order; with/without the SimpleRampdown estimator — default or drawn thresholds / increment — and the "
+        "minimum-rate option; two-stage batteries) with three extra runs: failure AFTER "
+        "the algorithm ran, JSON round trip with the original algorithm object re-attached, and TWO interruptions "
+        "(period k and a later invoked period) with a JSON round trip + the original object each time; "
+        "on top, n/5 scenarios of the RAMPDOWN stream: 2-4 stations (continuous 16/32/48 A, AV / 8-A-step / random "
+        "finite rate sets, unequal voltages), 1-2 sessions of 3-7 periods per station whose car draws clearly less than "
+        "the pilot (ideal battery with max_power 25-80 % of the EVSE's top, two-stage battery in / entering its taper, "
+        "nearly full battery) next to sessions that take what they are offered, aggregate limit 45-80 % of the sum of "
+        "the tops (or slack), max_recompute mostly 1 (also None with a recompute event in most periods, 2, 3), every "
+        "sorted algorithm + round robin, 85 % with the estimator: its bounds bind and SETTLE (pilot - rate <= threshold, "
+        "so they cannot be re-derived from the last period) before most crash points — measured by the features "
+        "estimator_bound_below_max_at_crash / estimator_settled_bound_at_crash / estimator_fresh_algo_after_json=differs; "
+        "corpus: the five-station FCFS+rampdown site of seed C09-7's demonstration, a round-robin and an LLF variant; "
+        "thorough adds EVERY "
         "valid layout of <=3 sessions on <=2 stations within horizon 3 x every crash period; "
         "80% of the scenarios get station ids whose registration order is not their sorted order (PS-9, PS-10, "
         "PS-11, …) with differing voltages; 2 of 5 are tie-heavy (several sessions per arrival / departure time in "
@@ -167,6 +197,45 @@ def corpus():
                                 {"t": 3, "sched": [["S1", [10.0, 0.0, 20.0]]]}]}}
     for k in _crash_points(scn, every=True):
         out.append({"scn": scn, "k": k})
+    out.extend(_rampdown_corpus())
+    return out
+
+
+def _rampdown_corpus():
+    """settled estimator bounds at the crash (the scenario class of the seeded change C09-7): (1) the five-station
+    site of its demonstration — stock FCFS + SimpleRampdown, a 3.3 kW car on the 16 A step of a FiniteRatesEVSE
+    (pilot 32 -> rate 15.9 -> bound 16.9 -> pilot 16: settled), two-stage batteries in their taper, an aggregate
+    limit that binds; (2) two cars with a small max_power on a continuous EVSE and on the AV rate set next to a
+    car that takes everything it is offered, limit binding, under round robin / LLF with max_recompute None / 2"""
+    def st(i, kind, v=208):
+        return {"id": i, "kind": kind, "V": v, "phase": 0}
+    cont = {"t": "cont", "min": 0, "max": 32}
+    l2 = lambda cap, init: {"two": True, "cap": cap, "init": init, "maxp": 6.6, "noise": 0, "ts": 0.8, "calc": "continuous"}  # noqa: E731
+    demo = {"stations": [st("D", {"t": "deadband", "db": 6, "max": 32}), st("A", cont), st("B", cont),
+                         st("C", {"t": "finite", "rates": [0, 8, 16, 24, 32]}), st("E", cont)],
+            "constraint": {"limit": 90.0},
+            "sessions": [_s("s4", "D", 0, 17, 9.0, {"two": False, "cap": 40, "init": 5, "maxp": 6.6}),
+                         _s("s0", "A", 1, 14, 6.0, l2(10, 7.5)), _s("s1", "B", 2, 16, 4.0, l2(12, 9.5)),
+                         _s("s2", "C", 3, 11, 5.0, {"two": False, "cap": 30, "init": 2, "maxp": 3.3}),
+                         _s("s5", "E", 4, 13, 6.0, {"two": False, "cap": 40, "init": 5, "maxp": 6.6}),
+                         _s("s3", "A", 15, 19, 3.0, {"two": False, "cap": 20, "init": 2, "maxp": 6.6})],
+            "recomputes": [5], "period": 5, "max_recompute": 1, "noise": [],
+            "sched": {"type": "fcfs", "estimator": True, "uninterrupted": False}, "rampdown_stream": True}
+    out = [{"scn": demo, "k": k} for k in (0, 4, 8, 9, 10, 12, 15)]
+    small = {"stations": [st("PS-9", cont), st("PS-10", {"t": "finite", "rates": list(S.AV_RATES)}, 240), st("PS-2", cont)],
+             "constraint": {"limit": 50.0},
+             "sessions": [_s("lo", "PS-9", 0, 8, 20.0, {"two": False, "cap": 100, "init": 10, "maxp": 2.2}),
+                          _s("av", "PS-10", 1, 7, 20.0, {"two": False, "cap": 100, "init": 10, "maxp": 3.3}),
+                          _s("hungry", "PS-2", 1, 9, 30.0, {"two": False, "cap": 100, "init": 5, "maxp": 50})],
+             "recomputes": [3, 4, 6], "period": 5, "max_recompute": None, "noise": [],
+             "sched": {"type": "rr", "sort": "edf", "inc": 1, "estimator": True, "uninterrupted": False},
+             "rampdown_stream": True}
+    out += [{"scn": small, "k": k} for k in (3, 4, 6, 7)]
+    llf = copy.deepcopy(small)
+    llf["max_recompute"] = 1
+    llf["recomputes"] = [5]
+    llf["sched"] = {"type": "llf", "estimator": True, "uninterrupted": True}
+    out += [{"scn": llf, "k": k} for k in (3, 5, 7, 8)]
     return out
 
 
@@ -357,12 +426,12 @@ def _gen_rampdown(rng):
     rng.shuffle(sessions)
     tops = sum((max(st["kind"]["rates"]) if st["kind"]["t"] == "finite" else st["kind"]["max"]) for st in stations)
     scn = {"stations": stations, "constraint": {"limit": round(tops * rng.choice([0.45, 0.6, 0.8, 3.0]), 1)},
-           "sessions": sessions, "period": period, "max_recompute": rng.choice([1, 1, 1, 1, None, 2, 3]),
+           "sessions": sessions, "period": period, "max_recompute": rng.choice([1, 1, 1, 1, 1, 1, None, None, 2, 3]),
            "noise": [round(rng.gauss(0, 1.0), 4) for _ in range(rng.randint(1, 5))]}
     last = max(s_["departure"] for s_ in sessions)
     scn["recomputes"] = [rng.randint(1, last) for _ in range(rng.choice([0, 0, 1, 2]))]
     if scn["max_recompute"] is None:                  # event-driven only: keep the estimator called often
-        scn["recomputes"] += [t for t in range(1, last) if rng.random() < 0.6]
+        scn["recomputes"] += [t for t in range(1, last) if rng.random() < 0.85]
     scn["sched"] = _real_opts(rng, {"type": rng.choice(["fcfs", "lcfs", "edf", "llf", "lrpt", "rr", "rr"])}, 0.85)
     scn["rampdown_stream"] = True
     return scn
@@ -928,6 +997,40 @@ def _run_json(scn, k, store_hist, net_cls, want_store, reattach="fresh"):
     return out
 
 
+def _run_json_twice(scn, k, k2):
+    """TWO interruptions: the scheduler raises in period k and again in period k2 > k; each time the simulator is
+    written to JSON, loaded back and given the SAME algorithm object again (whatever that object has learned
+    must survive both hand-overs; everything else must survive two round trips)"""
+    with S.noise_stream(scn.get("noise", [])) as ns:
+        sim, ctx = _build(scn, S.Hooks(fail_at={k, k2}, network_cls=ChargingNetwork), False)
+        algo = ctx["scheduler"]
+        err = S.run_sim(sim)
+        out = {"fired": err == "SchedulerFailed" and sim.iteration == k, "fired2": False, "reattach": "original"}
+        hops = 0
+        while err == "SchedulerFailed" and hops < 2 and sim.iteration in (k, k2):
+            if hops == 1:
+                out["fired2"] = sim.iteration == k2
+            w = _quiet()
+            try:
+                sim = Simulator.from_json(sim.to_json())
+                del algo.calls[:]
+                sim.update_scheduler(algo)
+            finally:
+                w.__exit__(None, None, None)
+            hops += 1
+            err = S.run_sim(sim)
+        evs, missing = _evs_of(sim, scn)
+        out["missing_evs"] = missing
+        obs = S.observe(sim, {"network": sim.network, "scheduler": algo, "evs": evs, "hooks": None}, err)
+        obs["noise_draws"] = ns["k"]
+        obs["sched_hist"] = None
+        _by_station(sim, obs)
+        obs["occ"] = []
+        out["obs"] = obs
+        out["identity"], out["n_shared"] = _identity(sim)
+    return out
+
+
 def run_impl(case):
     scn, k = case["scn"], int(case["k"])
     a = _run_a(scn)
@@ -943,6 +1046,12 @@ def run_impl(case):
         # the failure strikes AFTER the algorithm ran; and the original algorithm object re-attached after the load
         out["b2"] = _run_resume(scn, S.Hooks(after=_FailAfter(k)))
         out["c2"] = _run_json(scn, k, False, ChargingNetwork, False, reattach="original")
+        later = [t for t in a["invoked"] if t > k]
+        if k in a["invoked"] and later:
+            # a second interruption: the next invoked period, or one further on (chosen by the case's hash)
+            k2 = later[min(len(later) - 1, int(C.case_hash(case), 16) % 3)]
+            out["c3"] = _run_json_twice(scn, k, k2)
+            out["c3"]["k2"] = k2
     return out
 
 
@@ -975,6 +1084,13 @@ def _sorted_request(scn, infra):
                        "noise": [f2b(float(v)) for v in scn.get("noise", [])]}}
 
 
+def _min_rate_truncated(scn, infra):
+    """minimum-rate option on a station whose smallest non-zero pilot is not an integer: `SessionInfo.min_rates`
+    is an INTEGER array (interface.py:95, `np.array([0] * n)`), so `min_rates[0] = 12.5` (preprocessing.py:140)
+    stores 12 and the session then gets no allowable rate — the sorted model (C07/C08's) keeps 12.5"""
+    return bool(scn["sched"].get("uninterrupted")) and any(float(x) != int(float(x)) for x in infra["minp"])
+
+
 def model_request(case, obs=None):
     scn, k = case["scn"], int(case["k"])
     if scn.get("stochastic"):
@@ -984,6 +1100,8 @@ def model_request(case, obs=None):
         # compared with the implementation's uninterrupted AND resumed runs
         if not obs or not isinstance(obs.get("a"), dict) or obs["a"].get("infra") is None or not S.is_valid_layout(scn):
             return None
+        if _min_rate_truncated(scn, obs["a"]["infra"]):
+            return None      # see ASSUMPTIONS: the code truncates a fractional minimum pilot; oracle only
         return {"sim": None, "reg": None, "sorted": _sorted_request(scn, obs["a"]["infra"])}
     req = {"sim": S.model_request(scn, fail_at={k}, resume=True), "reg": None}
     if obs and isinstance(obs.get("c"), dict) and obs["c"].get("store"):
@@ -1016,7 +1134,10 @@ def _compare_sorted(case, obs, sr):
             continue
         if stateful and r.get("reattach") != "original":
             continue
-        runs.append((nm, r["obs"], "tail"))
+        runs.append((nm, r["obs"], k))
+    c3 = obs.get("c3")
+    if c3 is not None and c3["fired"] and c3["fired2"]:
+        runs.append(("two json round trips, original algorithm: ", c3["obs"], c3["k2"]))
     for nm, o, mode in runs:
         if mode == "dup" and "first" not in o:
             continue
@@ -1024,7 +1145,7 @@ def _compare_sorted(case, obs, sr):
         if mode == "dup":
             mm["invoked"] = [x for t in m["invoked"] for x in ([t, t] if t == k else [t])]
         else:
-            mm["invoked"] = [t for t in m["invoked"] if t >= k]
+            mm["invoked"] = [t for t in m["invoked"] if t >= mode]
         oo = {x: y for x, y in o.items() if x != "first"}
         if not oo.get("occ"):
             mm["occ"] = oo.get("occ", [])          # plain ChargingNetwork: no occupancy log
@@ -1361,6 +1482,20 @@ def oracle(case, obs):
                               "detail": f"crash at {k}, JSON round trip, the ORIGINAL algorithm object re-attached: " + "; ".join(d3[:4])})
             if c2["fired"] and (c2["identity"] or c2["rejson"]):
                 fails.append({"kind": "sharing_lost", "detail": "; ".join((c2["identity"] + c2["rejson"])[:3])})
+        c3 = obs.get("c3")
+        if c3 is not None:
+            if not (c3["fired"] and c3["fired2"]):
+                fails.append({"kind": "crash_point", "detail": f"two interruptions at {k} and {c3['k2']}: fired={c3['fired']}, {c3['fired2']}"})
+            else:
+                d4 = _same(a, c3["obs"], "after two json round trips + original algorithm", k, None)
+                if c3.get("missing_evs"):
+                    d4.append(f"EVs not reachable from the loaded simulator: {c3['missing_evs']}")
+                if d4:
+                    fails.append({"kind": "json_resume_twice_differs",
+                                  "detail": f"crash at {k} and again at {c3['k2']}, JSON round trip each time, the ORIGINAL "
+                                            f"algorithm object re-attached: " + "; ".join(d4[:4])})
+                if c3["identity"]:
+                    fails.append({"kind": "sharing_lost", "detail": f"after two round trips: " + "; ".join(c3["identity"][:3])})
     if d is not None and d["fired"] and (not stateful or d.get("reattach") == "original") \
             and d["obs"].get("sched_hist") != a.get("sched_hist"):
         fails.append({"kind": "json_history_resume_differs",
@@ -1415,6 +1550,19 @@ def features(case, obs):
             b2 = obs.get("b2")
             if b2 is not None and "first" in b2:
                 f.append("estimator_retry_after_it_ran=" + ("differs" if _same(a, b2, "", k, None) else "same"))
+            rd = (obs.get("c2") or {}).get("rd_at_crash") or []
+            down = (scn["sched"].get("ramp") or {"down": 1})["down"]
+            below = [r for r in rd if r[1] < I.num(r[2]) - 1e-9]
+            f.append("estimator_bound_below_max_at_crash=" + str(min(2, len(below))))
+            # a bound that the estimator would NOT re-derive from the last period alone (pilot - rate <= down_threshold)
+            f.append("estimator_settled_bound_at_crash=" + str(min(2, sum(1 for r in below if r[3] is not None and r[3] - r[4] <= down))))
+    if scn.get("rampdown_stream"):
+        f.append("rampdown_stream")
+    if obs.get("c3") is not None:
+        f.append("two_interruptions:gap=" + str(min(3, obs["c3"]["k2"] - k)))
+    if _is_real(scn) and not scn.get("stochastic"):
+        f.append("model=" + ("oracle_only:min_rate_truncated" if _min_rate_truncated(scn, a.get("infra") or {"minp": []})
+                             else "sorted_composition"))
     if scn.get("stochastic"):
         f.append("stochastic_network" + ("_early" if scn["stochastic"]["early"] else ""))
         if fired and b["first"].get("stoch", {}).get("waiting"):
